@@ -168,7 +168,7 @@ fn release_case(h0: u32, n0: u32, trunk_p: u32) {
 
 macro_rules! alloc_h {
     ($name:ident, $h:expr, $n:expr) => {
-        //@ props=C34 kind=bounded bound="PAGE_SIZE scaled to 256 bytes by cfg(kahflane_turdb_verif_small_pages) (TRUNK_MAX_ENTRIES = 58, every count 0..=58 symbolic); chain of <= 2 trunks"
+        //@ props=C34 kind=bounded small_pages=1 bound="PAGE_SIZE scaled to 256 bytes by cfg(kahflane_turdb_verif_small_pages) (TRUNK_MAX_ENTRIES = 58, every count 0..=58 symbolic); chain of <= 2 trunks"
         /// allocate step contract (see allocate_case) for one chain shape (head page, next trunk page, head count)
         #[kani::proof]
         #[kani::stub(eyre::capture_handler, vs::capture_handler)]
@@ -187,7 +187,7 @@ alloc_h!(c34_allocate_h2_n1, 2, 1);
 
 macro_rules! release_h {
     ($name:ident, $h:expr, $n:expr, $tp:expr) => {
-        //@ props=C34 kind=bounded bound="PAGE_SIZE scaled to 256 bytes by cfg(kahflane_turdb_verif_small_pages) (TRUNK_MAX_ENTRIES = 58, every count 0..=58 symbolic); chain of <= 2 trunks"
+        //@ props=C34 kind=bounded small_pages=1 bound="PAGE_SIZE scaled to 256 bytes by cfg(kahflane_turdb_verif_small_pages) (TRUNK_MAX_ENTRIES = 58, every count 0..=58 symbolic); chain of <= 2 trunks"
         /// release step contract (see release_case) for one chain shape; trunk_p != 0 = the released page
         /// becomes a trunk (empty list / full head trunk), trunk_p == 0 = it is pushed as an entry
         #[kani::proof]
@@ -207,8 +207,25 @@ release_h!(c34_release_h1_full_p2, 1, 0, 2);
 release_h!(c34_release_h2_full_p1, 2, 0, 1);
 release_h!(c34_release_h1_n2_entry, 1, 2, 0);
 
+macro_rules! real_h {
+    ($name:ident, $body:expr) => {
+        //@ props=C34 kind=bounded tier=thorough timeout=3000 bound="shipped PAGE_SIZE = 16384 (TRUNK_MAX_ENTRIES = 4090, every count symbolic); chain of <= 2 trunks; one chain shape"
+        /// the same step contract with the SHIPPED page size (no cfg hook): shows the scaled configuration is
+        /// not hiding a dependence on the constant; 10-15 min per obligation, hence thorough tier only
+        #[kani::proof]
+        #[kani::stub(eyre::capture_handler, vs::capture_handler)]
+        #[kani::stub(eyre::private::new_adhoc, vs::new_adhoc)]
+        #[kani::stub(eyre::private::format_err, vs::format_err)]
+        #[kani::stub(alloc::fmt::format, vs::format)]
+        #[kani::unwind(5)]
+        fn $name() { $body; }
+    };
+}
+real_h!(c34_allocate_h1_n2_real_pages, allocate_case(1, 2));
+real_h!(c34_release_h1_entry_real_pages, release_case(1, 0, 0)); //@tier=manual
+
 stubs! {
-//@ props=C34 kind=bounded bound="PAGE_SIZE scaled to 256 bytes; history release(1); allocate(); allocate() from the empty list"
+//@ props=C34 kind=bounded small_pages=1 bound="PAGE_SIZE scaled to 256 bytes; history release(1); allocate(); allocate() from the empty list"
 /// base case + smallest history from the empty freelist: new() is well formed and empty; release(p) then
 /// allocate() returns p and leaves the list empty; a second allocate() returns None; page 0 never requested
 #[kani::proof]
@@ -227,7 +244,7 @@ fn c34_empty_release_allocate() {
 }
 }
 
-//@ props=C34 kind=mustfail
+//@ props=C34 kind=mustfail small_pages=1
 /// MUST FAIL (vacuity guard): "allocate on a well-formed non-empty list returns None"
 #[kani::proof]
 #[kani::unwind(5)]
